@@ -531,6 +531,8 @@ impl Chain {
             drop(tx);
             let delivered = std::cell::RefCell::new(Vec::with_capacity(msgs.len()));
             let lw = parse_lifecycles_buffered_from_stream(lcs_w, rx, &|m| {
+                // list the lifecycles as a consumer of the stream does at every delivered message
+                std::hint::black_box(lcs_r.read().map(|r| get_sorted_lifecycles_as_vec(&r).len()));
                 delivered.borrow_mut().push(m);
                 Ok(())
             });
@@ -668,13 +670,13 @@ impl Prop for C03 {
         Meta {
             id: "C03",
             level: "fault_enumeration",
-            rule: "seed corpus = generated DLT traces covering every verbose argument type, non-verbose, header shapes, every control service id (request/response, non-verbose and verbose, with bodies for the parsed ones), FLST/FLDA/FLFI, network traces, lifecycle shapes + the plugin-specific message pool of the C19 explorer (NonVerbose / SOME/IP incl. segmented NWST-NWCH-NWEN / CAN / Muniic / Rewrite hits and near misses, 82 messages) + the first 40 (thorough: 200) messages of each repository .dlt example + the repository .asc/.txt/.log examples (prefixes). Mutation operators, each enumerated completely over every seed: (a) every truncation point, (b) every offset x {00,01,7F,80,FF,b^1,b^80}, (b2) every offset x 16-bit {0,FFFF,1} / 32-bit {0,FFFFFFFF} windows, (c) every recorded header/type-info/length/numeric/service-id/timestamp field x boundary table (service ids: all known ids, flag bytes: all 256 values), (d) every ordered pair splice of generated DLT seeds at message boundaries, (e, thorough) every pair of adjacent field corruptions for control and file-transfer seeds, (b3) text seeds: every offset replaced by a 3-byte UTF-8 character, (f) grammar products of text lines (incl. all ordered pairs of 10 odd tags for logcat and generic logs) (timestamp forms x pid/level/tag/text shapes for logcat, time/channel/id/dlc/data for CAN-ASC incl. header lines, date/level/tag for generic logs). Every case runs the full chain on the real code: reader by extension, header/payload text, argument iteration, to_write, EacStats, lifecycle detection + listing, time sort, 10 filters (matches, match_filters, filter_as_streams), FileTransfer(save)/NonVerbose/SomeIp/CAN/Muniic/Rewrite/Anonymize plugins. Oracle: no panic (overflow checks on), no process death (worker isolation), no allocation request >= 32 MiB whose size the unmutated seeds never request. Non-trivial = at least one message was parsed or a violation occurred.".into(),
+            rule: "seed corpus = generated DLT traces covering every verbose argument type, non-verbose, header shapes, every control service id (request/response, non-verbose and verbose, with bodies for the parsed ones), FLST/FLDA/FLFI, network traces, lifecycle shapes + the plugin-specific message pool of the C19 explorer (NonVerbose / SOME/IP incl. segmented NWST-NWCH-NWEN / CAN / Muniic / Rewrite hits and near misses, 82 messages) + the first 40 (thorough: 200) messages of each repository .dlt example + the repository .asc/.txt/.log examples (prefixes). Mutation operators, each enumerated completely over every seed: (a) every truncation point, (b) every offset x {00,01,7F,80,FF,b^1,b^80}, (b2) every offset x 16-bit {0,FFFF,1} / 32-bit {0,FFFFFFFF} windows, (c) every recorded header/type-info/length/numeric/service-id/timestamp field x boundary table (service ids: all known ids, flag bytes: all 256 values), (d) every ordered pair splice of generated DLT seeds at message boundaries, (e, thorough) every pair of adjacent field corruptions for control and file-transfer seeds, (b3) text seeds: every offset replaced by a 3-byte UTF-8 character, (g) uncorrupted multi-lifecycle histories: the boot-trace product of the C08 explorer (1 ECU x 1..2 boots, 2 ECUs x up to (2,2) boots x every interleaving) as valid DLT files, (h) every lifecycle event sequence up to depth 3 over the 40-symbol alphabet and up to depth 6 over the suspend/resume alphabet of the C05-C07 explorer (detection + listing only; thorough: depth 4 / 8), (f) grammar products of text lines (incl. all ordered pairs of 10 odd tags for logcat and generic logs) (timestamp forms x pid/level/tag/text shapes for logcat, time/channel/id/dlc/data for CAN-ASC incl. header lines, date/level/tag for generic logs). Every case runs the full chain on the real code: reader by extension, header/payload text, argument iteration, to_write, EacStats, lifecycle detection + listing, time sort, 10 filters (matches, match_filters, filter_as_streams), FileTransfer(save)/NonVerbose/SomeIp/CAN/Muniic/Rewrite/Anonymize plugins. Oracle: no panic (overflow checks on), no process death (worker isolation), no allocation request >= 32 MiB whose size the unmutated seeds never request. Non-trivial = at least one message was parsed or a violation occurred.".into(),
             assumptions: vec!["crash-freedom is decided for the enumerated neighbourhood, not for all byte strings".into(),
                 "FIBEX-configured plugins are re-created every 300 cases (their state carries over within such a window); a panic is re-checked on the single case by replay".into(),
                 "serial-framed DLT is covered through the byte operators on seeds re-framed with DLS markers".into()],
             budget_s: (45, 1500),
             workers: 0,
-            required_landmarks: vec!["parsed_messages", "multi_lifecycle", "op_truncate", "op_subst", "op_field", "op_splice", "op_grammar", "op_wide_subst", "op_multibyte", "fmt_asc", "fmt_txt", "fmt_log", "fmt_serial"],
+            required_landmarks: vec!["parsed_messages", "multi_lifecycle", "op_truncate", "op_subst", "op_field", "op_splice", "op_grammar", "op_wide_subst", "op_multibyte", "op_lc_history", "op_lc_sequence", "fmt_asc", "fmt_txt", "fmt_log", "fmt_serial"],
         }
     }
     fn careful(&self) -> bool {
@@ -900,7 +902,73 @@ impl Prop for C03 {
         if !done {
             return;
         }
-        if !done || !thorough {
+        // (g) valid multi-lifecycle histories (the boot-trace product of the C08 explorer) through the whole chain
+        ctx.begin_family("lc_histories", "uncorrupted traces: 1 ECU x 1..2 boots (all profiles/delays/offs/perms) and 2 ECUs x (1,1),(2,1),(2,2) boots x every interleaving (reception overlap allowed)");
+        crate::c08::history_streams(thorough, &mut |ms, cj| {
+            if ctx.mine() {
+                let mut b = Vec::with_capacity(ms.len() * 40);
+                for (i, (ecu, recv, ts)) in ms.iter().enumerate() {
+                    let spec = MsgSpec { storage_ecu: *ecu, hdr_ecu: *ecu, mcnt: i as u8, timestamp: *ts, secs: (*recv / 1_000_000) as u32, micros: (*recv % 1_000_000) as u32, payload: vec![i as u8], ..Default::default() };
+                    b.extend_from_slice(&spec.to_bytes());
+                }
+                ctx.landmark("op_lc_history");
+                judge(ctx, &mut sh, "lc_history", "dlt", &b, &|| json!({"op": "lc_history", "seed": "lc_history", "ext": "dlt", "bytes_hex": hexs(&b), "history": cj()}));
+                check_time!(done);
+            }
+            done
+        });
+        ctx.end_family(done);
+        if !done {
+            return;
+        }
+        // (h) lifecycle event sequences (alphabets of the C05-C07 explorer), detection + listing only
+        {
+            use crate::lcgen::{alphabet, gen_stream, resume_alphabet};
+            let plans: Vec<(&str, Vec<crate::lcgen::Sym>, usize)> = vec![("sigma40", alphabet(40), if thorough { 4 } else { 3 }), ("resume", resume_alphabet(), if thorough { 8 } else { 6 })];
+            for (name, sig, maxd) in plans {
+                ctx.begin_family("lc_sequences", &format!("every event sequence of depth 1..={maxd} over the {name} alphabet ({} symbols): lifecycle detection + listing without a panic", sig.len()));
+                for d in 1..=maxd {
+                    let mut syms = vec![sig[0]; d];
+                    let ok = enumr::sequences(d, sig.len(), |ix| {
+                        if ctx.mine() {
+                            for (i, x) in ix.iter().enumerate() {
+                                syms[i] = sig[*x];
+                            }
+                            let msgs = gen_stream(&syms, 20_000);
+                            let cj = || json!({"op": "lc_sequence", "seed": "lc_sequence", "events": syms.iter().map(|s| s.name()).collect::<Vec<_>>()});
+                            let r = crate::lc::run_stage(&[&msgs]);
+                            ctx.landmark("op_lc_sequence");
+                            match r {
+                                Err(p) => ctx.violation("panic", &p.loc, &cj, format!("lifecycle detection: {}", p.msg)),
+                                Ok(res) => {
+                                    if let Err(p) = &res.listing {
+                                        ctx.violation("panic", &p.loc, &cj, format!("listing lifecycles: {}", p.msg));
+                                    }
+                                    if res.table.len() > 1 {
+                                        ctx.landmark("multi_lifecycle");
+                                    }
+                                }
+                            }
+                            ctx.eval(d >= 2);
+                            ctx.sample(cj);
+                            if ctx.sum.evaluations % 4096 == 0 && ctx.out_of_time() {
+                                return false;
+                            }
+                        }
+                        true
+                    });
+                    if !ok {
+                        done = false;
+                        break;
+                    }
+                }
+                ctx.end_family(done);
+                if !done {
+                    return;
+                }
+            }
+        }
+        if !thorough {
             return;
         }
         // (e) adjacent field pairs
@@ -928,6 +996,20 @@ impl Prop for C03 {
     }
     fn replay(&self, case: &Value, ctx: &mut Ctx) {
         ctx.mine();
+        if case["op"] == "lc_sequence" {
+            let syms: Vec<crate::lcgen::Sym> = case["events"].as_array().map(|a| a.iter().filter_map(|e| e.as_str().and_then(crate::lcgen::Sym::parse)).collect()).unwrap_or_default();
+            let msgs = crate::lcgen::gen_stream(&syms, 20_000);
+            match crate::lc::run_stage(&[&msgs]) {
+                Err(p) => ctx.violation("panic", &p.loc, &|| case.clone(), format!("lifecycle detection: {}", p.msg)),
+                Ok(res) => {
+                    if let Err(p) = &res.listing {
+                        ctx.violation("panic", &p.loc, &|| case.clone(), format!("listing lifecycles: {}", p.msg));
+                    }
+                }
+            }
+            ctx.eval(true);
+            return;
+        }
         let hexs = case["bytes_hex"].as_str().unwrap_or("");
         if hexs.starts_with('<') {
             println!("replay: case bytes were not recorded (too long): {}", case);
